@@ -6,6 +6,9 @@ c  the reported mismatch is the mismatch of the reported states; threshold, labe
 d  results sorted by mismatch
 e  refinement: midpoint of the closest points; _closest_points_on_segments_2d: normal equations (identity) and
    optimality against an exact reference over a catalogue of segment configurations (generic, clamped, parallel, degenerate)
+
+b (added)  'chain' cloud separating greedy matching from mutual nearest neighbours
+c (added)  the limit is tested on the reported mismatch itself (guard on the path); cached requests are keyed by the options (hv.memo)
 """
 from __future__ import annotations
 
